@@ -56,6 +56,23 @@ def queueOK (status : Nat) (published : Nat) (before after : List Msg) (n : Nat)
     else if !(after.all fun m => before.any (· == m)) then some "rejected-publish-changed-queue"
     else none
 
+/-- spec-level validity of one item on the endpoint-scoped path of managed route `r` (no selector hints at all, id fresh
+    and unique, target resolvable among the route's targets, envelope within the route's limits) -/
+def scopedItemValid (r : RouteInfo) (existing seen : List String) (it : Item) : Bool :=
+  let id := trim it.id
+  id != "" && !seen.contains id && !existing.contains id &&
+  trim it.route == "" && trim it.app == "" && trim it.ep == "" &&
+  (match resolveTarget it.target (normTargets r.targets) with
+   | some t => t != "" && (match envelopeFromItem it r.path t r.maxBody r.maxHeaders with | .ok _ => true | .error _ => false)
+   | none => false)
+
+/-- the route may be published to through the endpoint-scoped path -/
+def scopedRouteOpen (ctx : Ctx) (r : RouteInfo) (managedEnabled : Bool) : Bool :=
+  let targets := normTargets r.targets
+  let mode := routeMode r targets
+  r.publishEnabled && managedEnabled && !targets.isEmpty &&
+    !(mode == "pull" && !ctx.allowPull) && !(mode == "deliver" && !ctx.allowDeliver)
+
 def processLine (line : String) : String :=
   match Json.parse line with
   | .error e => s!"BADLINE {e}"
@@ -83,10 +100,28 @@ def processLine (line : String) : String :=
       s!"PROP C15 published-without-required-audit missing={(auditError ac (k == "scoped") au).getD ""} {tag}"
     else
     if k == "scoped" then
-      -- endpoint-scoped path: all-or-nothing and shape only (the per-item rules of this path are not modelled)
+      -- endpoint-scoped path: judged against the spec-level predicate only (its handler is not modelled step by step)
       let route := str j "route"
       let fresh := after.filter (fun m => !existing.contains m.id)
-      if status == 200 && !(fresh.all fun m => m.route == route) then s!"PROP C15 scoped-publish-wrong-route {tag}" else "ok"
+      let rj? := (arr (obj j "ctx") "routes").find? (fun r => str r "path" == route)
+      match rj? with
+      | none => "ok"
+      | some rjson =>
+        let r := routeOfJson rjson
+        if status != 200 then "ok"
+        else if !scopedRouteOpen ctx r (bool rjson "managedEnabled") then s!"PROP C15 scoped-publish-on-a-route-closed-by-policy {tag}"
+        else match (List.range items.length).find? (fun i => !scopedItemValid r existing (seenBefore items i) (items.getD i default)) with
+          | some i => s!"PROP C15 scoped-invalid-item-published item={i} {tag}"
+          | none =>
+            -- the stored messages are exactly the envelopes of the items
+            let want := (items.zip itemsJ).filterMap fun p =>
+              match resolveTarget p.1.target (normTargets r.targets) with
+              | some t => match envelopeFromItem p.1 r.path t r.maxBody r.maxHeaders with
+                | .ok e => some (mkMsg now { e with headers := str p.2 "hcanon", trace := str p.2 "tcanon" })
+                | .error _ => none
+              | none => none
+            if sortMsgs want != sortMsgs fresh then s!"PROP C15 scoped-published-message-differs-from-item {tag} {firstDiff (sortMsgs want) (sortMsgs fresh)}"
+            else "ok"
     else
     -- spec-level predicate on the implementation's answer
     let fi := firstInvalid ctx existing items
